@@ -554,10 +554,10 @@ PROPS["C07"] = {
           min_verified=1),
         V("SCTP packet / chunk / parameter walkers: total for chunks of ANY length (Verus)", "sctp_walkers_total", "quick", "proof",
           ["SctpInner::handle_packet (chunk walker, up to the dispatch)", "SctpInner::handle_init (fixed part)", "SctpInner::handle_init_ack (fixed part + parameter walker)",
-           "SctpInner::handle_forward_tsn (pairs)", "SctpInner::handle_reconfig", "SctpInner::handle_reconfig_outgoing_ssn_reset (fixed part)", "SctpInner::handle_reconfig_response",
+           "SctpInner::handle_forward_tsn (pairs)", "SctpInner::handle_reconfig", "SctpInner::handle_reconfig_outgoing_ssn_reset (fixed part + stream list)", "SctpInner::handle_reconfig_response",
            "SctpInner::handle_sack (fixed part + gap blocks)", "SctpInner::handle_data (up to the in-order hand-over)", "SctpInner::process_data_payload (DATA header reads)"],
           "verbatim parsing parts of the SCTP handlers read as the sequential code of one task (async/.await dropped; each handler cut where parsing ends): every Bytes read / split_to / advance is within the remaining data for chunk values of any length, chunk_length - 4 and param_len - 4 do not underflow, every walker terminates; process_data_payload needs the 12-octet DATA header (requires) and handle_data establishes it at the hand-over",
-          min_verified=21),
+          min_verified=23),
         V("H.264 depacketiser: total for a payload of ANY length (Verus)", "h264_depack_total", "quick", "proof",
           ["H264Depacketizer::push"],
           "verbatim push (STAP-A walker, FU-A reassembly, single NAL; types copied from the source, tracing macros dropped): payload[0], payload[1], payload[2..], the STAP-A length reads and Bytes::slice ranges are in bounds for every payload and every reassembly state, the STAP-A loop terminates",
@@ -654,5 +654,22 @@ PROPS["C02"] = {
           ["DtlsInner::handle_client_key_exchange", "DtlsInner::handle_server_hello_done (up to the key derivation)"],
           "the same invariant for is_client == false in the two handlers where a server obtains session keys: `!is_client ==> inv(final)`",
           min_verified=4),
+    ],
+}
+
+# =============================================================================== C13
+PROPS["C13"] = {
+    "level": "proof",
+    "explanation": "PACKET ASSEMBLY KERNEL ONLY (Verus, verbatim text, one task's sequential reading): every octet string handed to the outgoing channel by send_packet_with_tag is at most 1200 octets, carries the given verification tag at 4..8 and the little-endian CRC32c of the packet with a zero checksum field at 8..12; transmit_chunks_with_tag batches chunks of at most 1188 octets so that this holds; create_data_chunk lays a DATA chunk out per RFC 4960 3.3.1 and stays within 1188 octets for payloads up to DEFAULT_MAX_PAYLOAD_SIZE; send_chunk likewise for control values up to 1184 octets. Not decided: TSN assignment, window / retransmission / quiescence rules, which tag callers pass, value sizes at the call sites of send_chunk (COOKIE-ECHO and HEARTBEAT-ACK echo peer-chosen lengths)",
+    "trusted_base": ["assumed contract of bytes::{Bytes, BytesMut} as an append-only writer with a Seq<u8> view (put_u8/u16/u32/slice append big-endian; DerefMut gives the octets)",
+                     "sctp_crc32c returns crc32c_spec(data) (the CRC itself — SSE4.2 intrinsics / crc32c crate — is not verified)",
+                     "one task's sequential reading of async fns; two `for` loops read as iterating by reference with named ghost iterators; unused loop binders `_` named",
+                     "statistics counters and close-reason mutex as opaque calls"],
+    "kani": [],
+    "verus": [
+        V("every SCTP packet handed to the wire: size, verification tag, CRC32c placement (Verus)", "sctp_packet_assembly", "quick", "proof",
+          ["SctpInner::send_packet_with_tag", "SctpInner::transmit_chunks_with_tag", "SctpInner::send_chunk", "SctpInner::create_data_chunk"],
+          "sink contract on the outgoing channel: wire_ok(p, tag) = 12 <= |p| <= 1200, p[4..8] == BE(tag), p[8..12] == LE(crc32c(p with p[8..12] = 0)); discharged in send_packet_with_tag under 12 + sum of chunk lengths <= 1200; transmit_chunks_with_tag establishes that for every batch when each chunk is <= 1188 octets (loop invariant current_len == 12 + sum(batch)); create_data_chunk: exact RFC 4960 3.3.1 layout (type, flags, length = 16 + payload, TSN, stream id, SSN, PPID, payload, zero padding to 4) and <= 1188 octets for payload <= 1172; send_chunk: <= 1188 octets for value <= 1184",
+          min_verified=17),
     ],
 }
